@@ -55,6 +55,8 @@ def confirm(src: Path):
 def run(sd: Path, pids, tier):
     d = fresh_worktree('run_' + sd.name)
     out = {}
+    gen = V / 'lean' / 'BqVerif' / 'Generated'
+    gen_keep = {f: f.read_bytes() for f in gen.glob('*.lean')}   # translators rewrite these from VERIF_REPO
     try:
         a = sh(f'git -C {d} apply {sd / "patch.diff"}')
         assert a.returncode == 0, a.stdout
@@ -70,6 +72,12 @@ def run(sd: Path, pids, tier):
             out[pid] = {'exit': r.returncode, 'wall_s': round(time.time() - t, 1), 'lines': lines[:80]}
     finally:
         drop(d)
+        for f in gen.glob('*.lean'):
+            if f not in gen_keep:
+                f.unlink()
+        for f, b in gen_keep.items():
+            if not f.exists() or f.read_bytes() != b:
+                f.write_bytes(b)
     return out
 
 
